@@ -12,3 +12,16 @@ func init() {
 		return fmt.Sprintf("%d %s %q", res.code, res.panicked, b)
 	}
 }
+
+func init() {
+	opExec["rawroot"] = func(a []string) string {
+		s := getServer()
+		rec := newRec()
+		s.Router.ServeHTTP(rec, newReq("GET", a[0]))
+		b := rec.Body.String()
+		if len(b) > 400 {
+			b = b[:400]
+		}
+		return fmt.Sprintf("%d %q", rec.Code, b)
+	}
+}
